@@ -4,7 +4,7 @@ import timerules as T
 
 
 def check(run):
-    for r in ('SIB.ops', 'TIME.months', 'TBL.time', 'TBL.const', 'NAT.guard'):
+    for r in ('SIB.ops', 'TIME.months', 'TBL.time', 'TBL.const', 'NAT.guard', 'TBL.cr'):
         run.rule(r, T.RULES[r])
     for cfg in configs(run):
         F = run.facts(cfg)
@@ -13,6 +13,8 @@ def check(run):
         T.check_time_ctors(run, F)
         T.check_consts(run, F)
         T.check_ops(run, F)
+        # every operator and duration_trunc goes through as_cr and back
+        T.check_cr_table(run, F)
     return run.finish(
         'other',
         'The structural part of the inverse laws: subtraction of a duration is the addition '
